@@ -5,6 +5,7 @@ import (
 	"os"
 	"path/filepath"
 	"sort"
+	"strings"
 	"testing"
 	"time"
 
@@ -12,6 +13,8 @@ import (
 
 	"verifharness/internal/eng"
 	"verifharness/internal/fix"
+	"verifharness/internal/gen"
+	"verifharness/internal/model"
 	"verifharness/internal/scratch"
 )
 
@@ -108,3 +111,48 @@ func TestKnown_full_plan_skips_generation(t *testing.T) {
 	}
 	rec.Known(t, "TestKnown_full_plan_skips_generation", fix.FullPlanSkipsKey, r, "acknowledged write not reflected in reads after compaction and restart: "+what, nil)
 }
+
+// An aborted measurement clean-up is logged as a deletion: after a crash inside a delete (its WAL
+// record torn) the cache still holds points of a series the index has already dropped; the next
+// delete that empties the measurement in the index cannot remove its field set (the cache still
+// has keys of it) but reports it as deleted, so the deletion goes to fields.idxl while the fields
+// stay in memory. A later acknowledged write to such a field is not logged and is unreadable after
+// the next crash.
+func TestKnown_aborted_measurement_cleanup_logged_as_deletion(t *testing.T) {
+	const key = "aborted-measurement-cleanup-logged-as-deletion"
+	var firstFail string
+	mc := eng.New("C02", rec, func(k, detail string, c any) {
+		if firstFail == "" {
+			firstFail = k + ": " + strings.SplitN(detail, "\n", 2)[0]
+		}
+		panic(stopRepro{})
+	}, t.Fatalf)
+	defer mc.Close()
+	func() {
+		defer func() {
+			if r := recover(); r != nil {
+				if _, ok := r.(stopRepro); !ok {
+					panic(r)
+				}
+			}
+		}()
+		a, b := "m0,host=a", "m0,host=b"
+		mc.Write([]gen.WPoint{{Series: "m1,host=a", T: 1, Fields: gen.IntField("fi", 1)}}) // keeps the field set non-empty
+		mc.Snapshot()
+		mc.Write([]gen.WPoint{{Series: b, T: 100, Fields: gen.IntField("fi", 2)}})
+		_, sz0 := mc.NewestWALSegment()
+		before, hb := mc.M.Clone(), mc.HiddenSnapshot()
+		mc.Delete([]string{b}, models.MinNanoTime, models.MaxNanoTime)
+		seg, _ := mc.NewestWALSegment()
+		mc.TornWAL(before, hb, seg, sz0+3, true, true) // recovery also writes m0,host=a fi@5 (probe)
+		mc.Delete([]string{a}, models.MinNanoTime, models.MaxNanoTime)
+		mc.Write([]gen.WPoint{{Series: b, T: 210, Fields: gen.IntField("fi", 3)}})
+		mc.FullScan()
+		mc.CrashDuring(eng.Step{Op: eng.Op{Kind: "snapshot"}, Run: func() error { return mc.F.Snapshot() }, After: func(m *model.Store) {}, Note: func() {}}, "tsm1.snapshot.after-clear", 1)
+		mc.FullScan()
+	}()
+	rec.Known(t, "TestKnown_aborted_measurement_cleanup_logged_as_deletion", key, firstFail != "",
+		"write m0,host=b fi@100; delete of m0,host=b interrupted by a crash (WAL record torn); after recovery delete m0,host=a (empties m0 in the index, the cache still holds m0,host=b); write m0,host=b fi@210 (acknowledged); crash during the next snapshot: "+firstFail, nil)
+}
+
+type stopRepro struct{}
